@@ -269,6 +269,47 @@ func stripNULL(der []byte) (newDER, newTBS, newSPKI []byte, err error) {
 	return
 }
 
+// withUniqueIDs re-encodes a certificate with issuerUniqueID [1] and/or subjectUniqueID [2] (IMPLICIT BIT STRING;
+// the slices are the BIT STRING contents, first byte = number of unused bits) inserted after the SubjectPublicKeyInfo.
+func withUniqueIDs(der, issuer, subject []byte) ([]byte, error) {
+	top, err := children(der)
+	if err != nil || len(top) != 3 {
+		return nil, fmt.Errorf("top: %v", err)
+	}
+	tbs, err := children(top[0].FullBytes)
+	if err != nil {
+		return nil, err
+	}
+	if len(tbs) == 0 || !(tbs[0].Class == 2 && tbs[0].Tag == 0) {
+		return nil, fmt.Errorf("no explicit version (v1 certificate)")
+	}
+	var tb []byte
+	nseq, done := 0, false
+	for _, e := range tbs {
+		if e.Class == 2 && (e.Tag == 1 || e.Tag == 2) {
+			return nil, fmt.Errorf("already has unique ids")
+		}
+		tb = append(tb, e.FullBytes...)
+		if e.Class == 0 && e.Tag == 16 {
+			nseq++
+			if nseq == 5 && !done {
+				done = true
+				if issuer != nil {
+					tb = append(tb, derTLV(0x81, issuer)...)
+				}
+				if subject != nil {
+					tb = append(tb, derTLV(0x82, subject)...)
+				}
+			}
+		}
+	}
+	if !done {
+		return nil, fmt.Errorf("no spki")
+	}
+	newTBS := derTLV(0x30, tb)
+	return derTLV(0x30, append(append(append([]byte{}, newTBS...), top[1].FullBytes...), top[2].FullBytes...)), nil
+}
+
 func pubEqual(a, b any) bool {
 	type eq interface{ Equal(crypto.PublicKey) bool }
 	if a == nil || b == nil {
@@ -387,6 +428,37 @@ func checkWellFormed(r *ev.Run, c *ev.Case, der []byte, cc certCase) (ref *x509.
 		} else {
 			r.Count("trailing data rejected", 1)
 		}
+	}
+	// the same certificate carrying the optional issuerUniqueID / subjectUniqueID members (RFC 5280 4.1.2.8) between
+	// its key and its extensions: still a well-formed certificate, and the reference parser reads it
+	for _, ids := range [][2][]byte{{{0, 0xde, 0xad}, nil}, {nil, {0, 1, 2, 3, 4}}, {{0, 0xff}, {3, 0xf8}}} {
+		ud, uerr := withUniqueIDs(der, ids[0], ids[1])
+		if uerr != nil {
+			r.Count("unique-id variant not applicable", 1)
+			break
+		}
+		ref2, e := x509.ParseCertificate(ud)
+		if e != nil {
+			r.Count("unique-id variant refused by the reference parser (skipped)", 1)
+			continue
+		}
+		r.Eval(1)
+		cc2 := cc
+		cc2.DER = hex.EncodeToString(ud)
+		var g *x509.Certificate
+		var ge error
+		if r.Guard(c, "ParseCertificate(unique ids)", cc2, func() { g, ge = yubiattest.ParseCertificate(ud) }) {
+			continue
+		}
+		if ge != nil || g == nil {
+			r.Violation(c, "wellformed-refused:unique-ids", fmt.Sprintf("err=%v case=%+v", ge, cc2), cc2)
+			break
+		}
+		if f := compare(g, ref2, true); f != "" {
+			r.Violation(c, "disagrees-with-stdlib:"+f+":unique-ids", fmt.Sprintf("field %s differs; case=%+v", f, cc2), cc2)
+			break
+		}
+		r.Count("certificates with issuer/subject unique identifiers accepted and equal", 1)
 	}
 	// NULL-stripped variant for RSA subject keys
 	if _, ok := ref.PublicKey.(*rsa.PublicKey); ok {
